@@ -287,8 +287,12 @@ func (w *walker) canon(e ast.Expr) string {
 	case *ast.BasicLit:
 		return x.Value
 	case *ast.SelectorExpr:
-		return w.canon(x.X) + "." + x.Sel.Name
+		// (&v).f is v.f
+		return strings.TrimPrefix(w.canon(x.X), "&") + "." + x.Sel.Name
 	case *ast.StarExpr:
+		if in := w.canon(x.X); strings.HasPrefix(in, "&") {
+			return in[1:]
+		}
 		return "*" + w.canon(x.X)
 	case *ast.IndexExpr:
 		if id, ok := x.Index.(*ast.Ident); ok && id.Obj != nil {
@@ -929,14 +933,19 @@ func (w *walker) invalidate(assigned map[*ast.Object]bool) {
 
 func stmtsNode(list []ast.Stmt) ast.Node { return &ast.BlockStmt{List: list} }
 
-// branch walks a branch with the extra conjuncts; returns the recorded body range.
-func (w *walker) branch(list []ast.Stmt, extra []Cond) (from, to int) {
+// branch walks a branch with the extra conjuncts; returns the recorded body range and what the branch itself learnt
+// on its way (the negations of its own guard clauses) - true behind the branch if the branch is the only way there.
+func (w *walker) branch(list []ast.Stmt, extra []Cond) (from, to int, learnt []Cond) {
 	saved := w.path
 	savedEnv := w.copyEnv()
 	w.path = append(append([]Cond(nil), w.path...), extra...)
+	n := len(w.path)
 	from = len(w.tr.Events)
 	w.block(list)
 	to = len(w.tr.Events)
+	for _, c := range w.path[n:] {
+		learnt = append(learnt, Cond{c.Text, 'S'})
+	}
 	w.path = saved
 	w.env = savedEnv
 	return
@@ -950,9 +959,20 @@ func tagged(cs []string, tag byte) []Cond {
 	return out
 }
 
+// negAll: the negation of a condition as conjuncts - !(a || b) is !a, !b; !(a && b) stays one conjunct
 func negAll(c string) []string {
 	cs := conjuncts(c)
 	if len(cs) == 1 {
+		if alts := splitTop(cs[0], "||"); len(alts) > 1 {
+			var out []string
+			for _, a := range alts {
+				if strings.HasPrefix(a, "(") && strings.HasSuffix(a, ")") && balanced(a[1:len(a)-1]) {
+					a = a[1 : len(a)-1]
+				}
+				out = append(out, negAll(a)...)
+			}
+			return out
+		}
 		return []string{negate(cs[0])}
 	}
 	return []string{"!(" + c + ")"}
@@ -981,6 +1001,14 @@ func (w *walker) recordGuard(at int, own []string, pathBefore []Cond, term bool,
 		LoopRange: li.rng, Closure: w.closure, Helper: w.helper, Terminates: term, Terms: w.directTerms(from, to, w.closure), From: from, To: to})
 }
 
+// exit emits a return / continue / break and records it as a guard of its own: the guard-clause style puts the exit
+// behind the negated conditions instead of inside an `if`.
+func (w *walker) exit(kind, text string) {
+	at := len(w.tr.Events)
+	w.emit(kind, text)
+	w.recordGuard(at, nil, w.path, true, at, at+1)
+}
+
 func (w *walker) ifStmt(x *ast.IfStmt) {
 	if x.Init != nil {
 		w.stmt(x.Init)
@@ -991,11 +1019,12 @@ func (w *walker) ifStmt(x *ast.IfStmt) {
 	at := len(w.tr.Events)
 	pathBefore := append([]Cond(nil), w.path...)
 	bodyTerm := w.terminates(x.Body.List)
-	from, to := w.branch(x.Body.List, tagged(own, 'E'))
+	from, to, bodyLearnt := w.branch(x.Body.List, tagged(own, 'E'))
 	w.recordGuard(at, own, pathBefore, bodyTerm, from, to)
 	neg := tagged(negAll(c), 'S')
 	elseTerm := false
 	var elseList []ast.Stmt
+	var elseLearnt []Cond
 	if x.Else != nil {
 		switch e := x.Else.(type) {
 		case *ast.BlockStmt:
@@ -1004,7 +1033,7 @@ func (w *walker) ifStmt(x *ast.IfStmt) {
 			elseList = []ast.Stmt{e}
 		}
 		elseTerm = w.terminates(elseList)
-		w.branch(elseList, neg)
+		_, _, elseLearnt = w.branch(elseList, neg)
 	}
 	// what the code after the `if` knows, and which assignments it must forget
 	if !bodyTerm {
@@ -1015,9 +1044,9 @@ func (w *walker) ifStmt(x *ast.IfStmt) {
 	}
 	switch {
 	case bodyTerm && !elseTerm:
-		w.path = append(w.path, neg...)
+		w.path = append(append(w.path, neg...), elseLearnt...)
 	case elseTerm && !bodyTerm && x.Else != nil:
-		w.path = append(w.path, tagged(own, 'S')...)
+		w.path = append(append(w.path, tagged(own, 'S')...), bodyLearnt...)
 	}
 }
 
@@ -1062,7 +1091,7 @@ func (w *walker) switchStmt(x *ast.SwitchStmt) {
 		at := len(w.tr.Events)
 		pathBefore := append(append([]Cond(nil), w.path...), before...)
 		term := w.terminates(cc.Body)
-		from, to := w.branch(cc.Body, append(append([]Cond(nil), before...), tagged(own, 'E')...))
+		from, to, _ := w.branch(cc.Body, append(append([]Cond(nil), before...), tagged(own, 'E')...))
 		saved := w.path
 		w.path = pathBefore
 		w.recordGuard(at, own, pathBefore, term, from, to)
@@ -1261,9 +1290,9 @@ func (w *walker) stmt(s ast.Stmt) {
 		if len(parts) > 0 {
 			t += " " + strings.Join(parts, ",")
 		}
-		w.emit("return", t)
+		w.exit("return", t)
 	case *ast.BranchStmt:
-		w.emit(x.Tok.String(), x.Tok.String())
+		w.exit(x.Tok.String(), x.Tok.String())
 	case *ast.DeferStmt:
 		// `defer f(args)()` : f(args) runs now, its result at exit
 		if inner, ok := x.Call.Fun.(*ast.CallExpr); ok {
